@@ -302,6 +302,8 @@ class Row:
 # ------------------------------------------------------------------ the engine
 # bodies whose MIR some engine walked in this process (coverage map, see tools/coverage_map.py)
 ANALYSED_BODIES = set()
+# adaptors of iterator pipelines that the engine modelled element by element (root fn, kind, closure id): not "unreviewed" for RA.1
+FUSED_ADAPTORS = set()
 
 
 class Engine:
@@ -322,6 +324,7 @@ class Engine:
         self.opaque_pure = set(opaque_pure)
         self.notes = []
         self.in_discovery = set()
+        self.fuse_iterators = True
         self.track_moves = False
         self.own_closures_only = False
         self.top_root = None
@@ -824,6 +827,18 @@ class Engine:
         target = resolved or path
         muts = tuple(self.arg_is_mut(fj, t, i) for i in range(len(args)))
         st.events.append(("call", target, tuple(args), site, target in self.fx.fns, fj, muts))
+        # 0. iterator pipelines: `it.filter(p).map(f).for_each(g)` is a loop in disguise; its body paths are produced as loop-body
+        #    rows exactly like those of `for x in it { if !p(x) { continue } g(f(x)) }`
+        if self.fuse_iterators:
+            decl = strip_all_generics(path or "")
+            if decl.startswith("std::iter::Iterator::"):
+                nm = decl.split("::")[-1]
+                if nm in ("for_each", "try_for_each") and len(args) == 2 and self._closure_is_local(st, args[1]):
+                    yield from self.fused_consumer(nm, frame, st, args, depth, site)
+                    return
+                elif nm == "next" and len(args) == 1 and self.is_pipeline(self.pipeline_of(st, args[0])):
+                    yield from self.fused_next(st, args[0], depth, site)
+                    return
         # 1. exact summaries for the resolved target
         for name in (target, strip_generics(target)):
             if name in self.summaries:
@@ -868,6 +883,222 @@ class Engine:
                         cur = self.read_rp(st, pv[1], pv[2])
                         self.write_rp(st, pv[1], pv[2], ("call", "fold:" + clo[1], (cur,), n), site)
         yield st, rv
+
+    # ---------------------------------------------------------------- iterator pipelines
+    FUSABLE = ("filter", "map", "filter_map", "flat_map", "inspect", "cloned", "copied")
+
+    def pipeline_of(self, st, t):
+        """the iterator expression behind a pointer / loop variable / already-advanced iterator"""
+        for _ in range(12):
+            if t[0] == "ptr":
+                t = self.read_rp(st, t[1], t[2])
+            elif t[0] == "loopvar" and len(t) > 2:
+                t = t[2]
+            elif t[0] == "call" and t[1].startswith("havoc:") and t[1].endswith("::next") and t[2]:
+                t = t[2][0]
+            elif t[0] == "call" and strip_all_generics(t[1]).split("::")[-1] == "into_iter" and t[2] and self.is_pipeline(self.pipeline_of(st, t[2][0])):
+                t = t[2][0]
+            else:
+                break
+        return t
+
+    def is_pipeline(self, t):
+        if t[0] != "call" or t[1].startswith("havoc:") or not strip_all_generics(t[1]).startswith("std::iter::Iterator::"):
+            return False
+        nm = strip_all_generics(t[1]).split("::")[-1]
+        if nm not in self.FUSABLE:
+            return False
+        if nm in ("cloned", "copied"):
+            return True
+        if len(t[2]) != 2:
+            return False
+        clo = t[2][1]
+        if clo[0] == "closure" and clo[1] in self.fx.fns:
+            if nm == "flat_map" and not (self.fx.fns[clo[1]].get("output") or "").startswith("std::option::Option"):
+                return False
+            return True
+        return clo[0] == "fnptr" and clo[1] in self.fx.fns and nm != "flat_map"
+
+    def split_truth(self, st, v):
+        if v == TRUE:
+            return [(st, True)]
+        if v == FALSE:
+            return [(st, False)]
+        if v[0] == "un" and v[1] == "Not":
+            return [(s2, not b) for s2, b in self.split_truth(st, v[2])]
+        for c in st.cond:
+            if c[0] == "truth" and c[1] == v:
+                return [(st, c[2])]
+        s1 = st.fork()
+        s1.cond.append(("truth", v, True))
+        s2 = st.fork()
+        s2.cond.append(("truth", v, False))
+        return [(s1, True), (s2, False)]
+
+    def iter_elements(self, st, t, depth, site):
+        """generator (state, element | ITER_SKIP | ITER_END) for one step of the iterator expression t"""
+        t = self.pipeline_of(st, t)
+        if not self.is_pipeline(t):
+            r = ("call", "std::iter::Iterator::next", (t,), self.next_uniq(st, "fused:next"))
+            for s2, tag, payload in split_option(self, st, r):
+                yield s2, (payload if tag == "Some" else ITER_END)
+            return
+        nm = strip_all_generics(t[1]).split("::")[-1]
+        inner = t[2][0]
+        clo = t[2][1] if len(t[2]) > 1 else None
+        if clo is not None and clo[0] in ("closure", "fnptr") and clo[1] in self.fx.fns:
+            FUSED_ADAPTORS.add((self.fx.root_fn(clo[1]) if clo[0] == "closure" else (self.top_root or clo[1]), "Iterator::" + nm, clo[1]))
+        for s1, e in self.iter_elements(st, inner, depth, site):
+            if e is ITER_SKIP or e is ITER_END:
+                yield s1, e
+                continue
+            if nm in ("cloned", "copied"):
+                yield s1, (_val(self, s1, e) if e[0] == "ptr" else e)
+                continue
+            if nm in ("filter", "inspect"):
+                self.frame_counter += 1
+                tmp = ("L", self.frame_counter, -7)
+                s1.store[tmp] = e
+                for s2, r in call_closure(self, s1, clo, [("ptr", tmp, ())], depth, site):
+                    if r is PANIC:
+                        continue
+                    if nm == "inspect":
+                        yield s2, e
+                        continue
+                    for s3, b in self.split_truth(s2, r):
+                        yield s3, (e if b else ITER_SKIP)
+                continue
+            for s2, r in call_closure(self, s1, clo, [e], depth, site):
+                if r is PANIC:
+                    continue
+                if nm == "map":
+                    yield s2, r
+                else:   # filter_map / flat_map over Option
+                    for s3, tag, payload in split_option(self, s2, r):
+                        yield s3, (payload if tag == "Some" else ITER_SKIP)
+
+    def _closure_is_local(self, st, g):
+        gv = self.read_rp(st, g[1], g[2]) if g[0] == "ptr" else g
+        return gv[0] in ("closure", "fnptr") and gv[1] in self.fx.fns
+
+    def _havoc_closure_captures(self, st, clo, site):
+        if clo[0] == "ptr":
+            clo = self.read_rp(st, clo[1], clo[2])
+        if clo[0] == "closure" and len(clo) > 3:
+            for n in clo[3]:
+                pv = proj(clo, ("f", "<closure>", n))
+                if pv[0] == "ptr":
+                    cur = self.read_rp(st, pv[1], pv[2])
+                    self.write_rp(st, pv[1], pv[2], ("call", "fold:" + clo[1], (cur,), n), site)
+
+    def _pipeline_closures(self, st, t):
+        out = []
+        t = self.pipeline_of(st, t)
+        while self.is_pipeline(t):
+            if len(t[2]) > 1:
+                out.append(t[2][1])
+            t = self.pipeline_of(st, t[2][0])
+        return out
+
+    def _closure_body_paths(self, sb, nm, args, depth, site):
+        """(state, result) of running one element through the pipeline and the consumer closure; skipped elements give
+        (state, ITER_SKIP)"""
+        g = args[1]
+        for s1, e in self.iter_elements(sb, args[0], depth, site):
+            if e is ITER_END:
+                continue
+            if e is ITER_SKIP:
+                yield s1, ITER_SKIP
+                continue
+            for s2, r in call_closure(self, s1, g, [e], depth, site):
+                if r is PANIC:
+                    continue
+                yield s2, r
+
+    def fused_consumer(self, nm, frame, st, args, depth, site):
+        """`pipeline.for_each(g)` / `try_for_each(g)` as the loop it is.  (1) dry run of the body to find what it writes outside
+        its own frame; (2) those places become loop variables (unknown value of an arbitrary iteration), the body paths are
+        recorded as loop-body rows of the table being built; (3) the caller continues with the same places unknown.  For
+        try_for_each a body path whose result is the failure variant leaves the loop with that result."""
+        g = args[1]
+        out_ty = ""
+        gv = self.read_rp(st, g[1], g[2]) if g[0] == "ptr" else g
+        if gv[0] in ("closure", "fnptr") and gv[1] in self.fx.fns:
+            out_ty = self.fx.fns[gv[1]].get("output") or ""
+        # (1) discovery
+        key = ("fused", site)
+        self.in_discovery.add(key)
+        written = []
+        try:
+            sa = st.fork()
+            for c in self._pipeline_closures(sa, args[0]) + [g]:
+                self._havoc_closure_captures(sa, c, site)
+            n0 = len(sa.events)
+            for s2, r in self._closure_body_paths(sa, nm, args, depth, site):
+                for e in s2.events[n0:]:
+                    if e[0] == "write" and (e[1], tuple(e[2])) not in written:
+                        written.append((e[1], tuple(e[2])))
+        finally:
+            self.in_discovery.discard(key)
+
+        def havoc(state):
+            for i, (root, path) in enumerate(written):
+                cur = self.read_rp(state, root, path)
+                self.write_rp(state, root, path, ("loopvar", (0, "fused:%s:%s" % site, i), cur), site, log=False)
+        # (2) body rows
+        if not self.in_discovery and hasattr(self, "callee_backedges"):
+            sb = st.fork()
+            sb.events.append(("loop", frame["fn"]["id"], "fused", tuple(written)))
+            havoc(sb)
+            for s2, r in self._closure_body_paths(sb, nm, args, depth, site):
+                if nm == "try_for_each" and r is not ITER_SKIP:
+                    fails = []
+                    for s3, tag in self._split_try(s2, r, out_ty):
+                        if tag == "fail":
+                            fails.append(s3)
+                        else:
+                            self.callee_backedges.append((s3, site))
+                    for s3 in fails:
+                        yield s3, r
+                    continue
+                self.callee_backedges.append((s2, site))
+        # (3) continuation: iterator exhausted
+        havoc(st)
+        if nm == "try_for_each" and out_ty.startswith("std::result::Result"):
+            yield st, ("agg", "std::result::Result", "Ok", (("0", ("agg", "<tuple>", None, ())),))
+        elif nm == "try_for_each" and out_ty.startswith("std::option::Option"):
+            yield st, some(("agg", "<tuple>", None, ()))
+        elif nm == "try_for_each":
+            yield st, self.opaque(st, "std::iter::Iterator::try_for_each", list(args))
+        else:
+            yield st, ("c", None)
+
+    def _split_try(self, st, r, out_ty):
+        """(state, 'fail' | 'continue') for the result of a try_for_each closure"""
+        fail_v = "Err" if out_ty.startswith("std::result::Result") else "None" if out_ty.startswith("std::option::Option") else "Break"
+        ok_v = {"Err": "Ok", "None": "Some", "Break": "Continue"}[fail_v]
+        if r[0] == "agg" and r[2] in (fail_v, ok_v):
+            return [(st, "fail" if r[2] == fail_v else "continue")]
+        for c in st.cond:
+            if c[0] == "variant" and c[1] == r and c[3]:
+                return [(st, "fail" if c[2] == fail_v else "continue")]
+        s1 = st.fork()
+        s1.cond.append(("variant", r, fail_v, True))
+        s2 = st.fork()
+        s2.cond.append(("variant", r, ok_v, True))
+        return [(s1, "fail"), (s2, "continue")]
+
+    def fused_next(self, st, itptr, depth, site):
+        """`next()` on a fusable pipeline inside a `for` loop: Some(element) for the elements that pass, None when exhausted; an
+        element that a filter drops is a loop-body path of its own (it goes straight to the next iteration)"""
+        for s1, e in self.iter_elements(st, itptr, depth, site):
+            if e is ITER_END:
+                yield s1, NONE
+            elif e is ITER_SKIP:
+                if hasattr(self, "callee_backedges"):
+                    self.callee_backedges.append((s1, site))
+            else:
+                yield s1, some(e)
 
     def arg_is_mut(self, fj, t, i):
         # declared argument types are not in the call json; use the operand's place type
@@ -941,6 +1172,8 @@ class Engine:
 
 
 PANIC = ("panic",)
+ITER_SKIP = ("iter-skip",)
+ITER_END = ("iter-end",)
 PURE_OBSERVERS = {"len", "is_empty", "contains", "contains_key"}
 
 
